@@ -79,8 +79,12 @@ def wf_nodes(chk, n):
                 # roles that END in -of by definition under AMR but are inversions under the default model:
                 # the two models must not influence each other (a memo keyed by role text alone would)
                 roles = [':ARG0', ':ARG1', ':ARG0-of', ':consist-of', ':prep-out-of', ':prep-on-behalf-of', ':mod', ':ARG1-of', ':quant']
-            yield 'random', gen.random_tree_node(rng, gen.fresh_vars(40), wf=True,
-                                                 maxdepth=rng.choice([2, 4, 6]), roles=roles)
+            node = gen.random_tree_node(rng, gen.fresh_vars(40), wf=True,
+                                        maxdepth=rng.choice([2, 4, 6]), roles=roles)
+            if rng.random() < .3:
+                # a reference (possibly through an inverted role) written BEFORE the node it names is defined
+                node = gen.forward_references(rng, node)
+            yield 'random', node
 
 
 # ---------------------------------------------------------------------------------------
